@@ -46,12 +46,17 @@ def run(chk, repo: Repo):
     chk.rule("C17-R6", "PSF sample grids are centred on the kernel origin: for both parities of the size N the grid is N consecutive integers with "
                        "its zero at index N // 2 (the origin of scipy's convolve1d and of the padded 'valid' convolution)", floor=7)
     _r6(chk, repo)
+    chk.rule("C17-R7", "optional arguments of the shipped problems (data, noise level, sizes, ...) are defaulted with `is None`, never by truthiness "
+                       "(0 / 0.0 are legal observations and parameters)", floor=1)
+    from ..truthy import truthy_default_rule
+    truthy_default_rule(chk, repo, "C17-R7", ("cuqi/testproblem/",))
     for cname in CLASSES:
         ci = repo.cls(f"{TP}:{cname}")
         init = repo.method(ci, "__init__")[1]
         _provenance(chk, repo, ci, init)
     _r3(chk, repo)
     _r4(chk, repo)
+    _r4_modes(chk, repo)
     bp = repo.cls("cuqi/problem/_problem.py:BayesianProblem")
     gc = repo.method(bp, "get_components")[1]
     from .common import match, stmts
@@ -265,6 +270,44 @@ def _r4(chk, repo):
                 chk.note(f"C17-R4 {where}: option dispatch on `{S}` {lits} {'refuses' if refuses else 'does not refuse'} other values")
     if n < 4:
         raise AnchorError(f"{n} noise-type/boundary dispatches found, 4 confirmed by hand")
+
+
+def _r4_modes(chk, repo):
+    """boundary condition -> scipy.ndimage mode, as a table: for every accepted BC literal the path through _getConvolutionOperator is followed and the
+    value bound to `mode` when the operator is returned is read off (a module-level literal table is looked up). The translation must be the documented
+    one; scipy's synonyms are accepted (grid-constant = constant, grid-wrap = wrap, grid-mirror = REFLECT; `mirror` has no synonym)."""
+    from .common import canon_fn, case_valuation, literal_collections, literal_dicts, case_domain, OTHER
+    from ..pathtable import walk_paths
+    from ..pattern import norm as pn
+    m = repo.mod(TP)
+    fn = repo.func(f"{TP}:_getConvolutionOperator")
+    bc = func_params(fn)[4]
+    v = canon_fn(repo, None, fn, 1, rel=TP)
+    consts, dicts = literal_collections(m.tree), literal_dicts(m.tree)
+    SAME = {"constant": {"constant", "grid-constant"}, "wrap": {"wrap", "grid-wrap"}, "reflect": {"reflect", "grid-mirror"}, "mirror": {"mirror"}, "nearest": {"nearest"}}
+    WANT = {"zero": "constant", "periodic": "wrap", "mirror": "mirror", "reflect": "reflect", "nearest": "nearest"}
+    problems, und, seen = [], [], 0
+    for lit, target in WANT.items():
+        val = case_valuation(v, f"{bc}.lower()", lit, consts)
+        modes = set()
+        for kind, res in walk_paths(v, val, pn, limit=256):
+            if kind in ("unknown", "loop"):
+                und.append(str(res)[:100])
+            elif kind == "return":
+                e = getattr(res, "_env", {}).get("mode")
+                if isinstance(e, ast.Subscript) and isinstance(e.value, ast.Name) and e.value.id in dicts:
+                    e = dicts[e.value.id].get(lit)
+                modes.add(e.value if isinstance(e, ast.Constant) else (pn(e) if e is not None else None))
+        if not modes:
+            problems.append(f"BC='{lit}' never reaches the operator")
+            continue
+        seen += 1
+        bad = [x for x in modes if x not in SAME[target]]
+        if bad:
+            problems.append(f"BC='{lit}' is translated to mode {bad} (scipy: {', '.join(sorted(SAME[target]))} expected"
+                            f"{'; grid-mirror is the synonym of reflect, not of mirror' if 'grid-mirror' in bad else ''})")
+    chk.decide("C17-R4", f"{TP}:_getConvolutionOperator/mode-table", not problems and not und, bool(problems) or not und, site(repo, fn),
+               "zero->constant, periodic->wrap, mirror->mirror, reflect->reflect, nearest->nearest", "; ".join(problems or und[:2]), fn)
 
 
 def _parents(node):
